@@ -11,6 +11,8 @@
      tracked set is inserted into only after a successful container add.
  MP6 (K2) loops over transactions that were extracted from a container (demotions, promotions,
      removals) run to exhaustion: no break/return/? inside.
+ MP7 (K2) after a `split_off` of an account's map every returned value derives from the
+     split-off part (nothing extracted is dropped on an early return).
  MP5 (K5) promotion candidates are computed against balances net of the pending transactions'
      costs (`subtract_contained_costs`), in both insertion and maintenance.
 Not decided: nonce-contiguity / affordability invariants over operation sequences, ordering of
@@ -42,6 +44,7 @@ def run(prog, rep):
     rep.assumptions += ["production cfg only"]
     mp1(prog, rep)
     mp6(prog, rep)
+    mp7(prog, rep)
     mp2(prog, rep)
     mp3(prog, rep)
     mp5(prog, rep)
@@ -99,6 +102,38 @@ def mp6(prog, rep):
                       "were re-homed or reported (break/return/?): the rest are in no container and "
                       "have no removal reason, yet stay tracked", head.where())
     rep.floor("MP6", n, 4, "loops over extracted transactions")
+
+
+def mp7(prog, rep):
+    """A `split_off` takes a range of transactions out of an account's map.  From that point on
+    the function holds them: every value it can return afterwards must be derived from the
+    split-off part (the caller re-homes or reports exactly what it is handed) - an early
+    `return Vec::new()` after the split would drop them while they stay tracked."""
+    n = 0
+    for b in prog.bodies:
+        if not b.owner.startswith("astria_sequencer::mempool::transactions_container::") or is_test_owner(b.owner):
+            continue
+        for c in b.calls:
+            if short_name(c.callee) != "split_off" or c.expn or c.target is None:
+                continue
+            n += 1
+            after = b.reachable(c.target)
+            bad = []
+            for d in b.defs.get(0, []):
+                if d[0] == "call" and d[2].bb in after:
+                    r = f"{short_name(d[2].callee)}(" + ",".join(b.root(a) for a in d[2].args) + ")"
+                elif d[0] == "stmt" and d[1] in after:
+                    rv = d[4]
+                    r = b.root(rv[1]) if rv[0] == "use" else rv[0]
+                else:
+                    continue
+                if "split_off(" not in r:
+                    bad.append(r[:60])
+            rep.check(not bad, "MP7", rep.nth(f"{short_name(b.owner)}|split_off:extracted-are-returned"),
+                      f"{b.owner} can return `{bad[:2]}` after it has split transactions off the "
+                      "account's map: the extracted transactions are dropped (neither returned "
+                      "for re-homing/reporting nor put back) but stay tracked", c.where())
+    rep.floor("MP7", n, 4, "split_off sites in the mempool containers")
 
 
 def mp2(prog, rep):
